@@ -51,6 +51,10 @@ def e2e_repr(v):
     return repr(v)
 
 
+import collections  # noqa: E402
+_LIVE = collections.deque()
+
+
 class Sess:
     """one client session under test + its recorded history"""
 
@@ -72,6 +76,13 @@ class Sess:
         else:
             self.conv = e2e.Conv(peer, env)
             self.kw0 = e2e.client_kwargs(peer.state, with_engine_id=not peer.discover) if peer.kind == "v3" else None
+        # the checks keep every session (its recorded history is replayed on the model at the end); its socket is only
+        # needed while the history is being recorded: the descriptors of sessions created long ago are given back
+        _LIVE.append(self)
+        while len(_LIVE) > 2000:
+            old = _LIVE.popleft()
+            old.conv.sock = None
+            old.iters = []
         self.iters = []
         self.cursor = {}      # iterator index -> arcs the next request of that iterator must name (when tracked)
         self.base_len = {}    # iterator index -> number of arcs of its base
